@@ -63,3 +63,19 @@ pub async fn yield_point(site: &'static str) {
         YieldOnce(false).await;
     }
 }
+
+thread_local! {
+    static SERIALIZING_EPOCH: std::cell::Cell<Option<u64>> =
+        const { std::cell::Cell::new(None) };
+}
+
+/// Records (per thread) the epoch of the logical write batch that is about to
+/// be serialized, so a recording [`KvDatabase`](crate::kv_database::KvDatabase)
+/// can label the serialization buffer it hands out.
+pub fn set_serializing_epoch(epoch: Option<u64>) {
+    SERIALIZING_EPOCH.with(|c| c.set(epoch));
+}
+
+/// The epoch recorded by [`set_serializing_epoch`] on this thread.
+#[must_use]
+pub fn serializing_epoch() -> Option<u64> { SERIALIZING_EPOCH.with(std::cell::Cell::get) }
